@@ -17,6 +17,8 @@ RInit(e) ==
   ELSE IF e.kind = "conc"
   THEN [kind |-> "conc", n |-> e.n, mode |-> e.mode, gates |-> e.gates, seen |-> {}]
   ELSE IF e.kind = "retain" THEN [kind |-> "retain", n |-> e.calls, seen |-> {}]
+  ELSE IF e.kind = "opreuse" THEN [kind |-> "opreuse", opHasCtx |-> e.op_has_ctx, rtCtxs |-> e.rt_ctxs, n |-> 0]
+  ELSE IF e.kind = "multi" THEN [kind |-> "multi", m |-> CInitM]
   ELSE IF e.kind = "clientlat" THEN [kind |-> "clientlat", opc |-> e.op_client, rtMarker |-> e.rt_marker, rtJar |-> e.rt_jar]
   ELSE [kind |-> "race"]
 
@@ -83,20 +85,47 @@ WireOK(s, e) ==
   /\ WireAllowed(s.opc, s.rtMarker, s.rtJar,
                  [rt_marker |-> e.rt_marker, op_marker |-> e.op_marker, rt_cookie |-> e.rt_cookie, op_cookie |-> e.op_cookie])
 
+\* the same ClientOperation submitted again: untouched by Submit, and each call sees the transport-wide context of *that* call
+ReuseOK(s, e) ==
+  /\ e.ev = "reuse_call" /\ e.n = s.n + 1 /\ e.n <= Len(s.rtCtxs)
+  /\ e.result_ok /\ e.requests = 1
+  /\ e.op_unchanged
+  /\ [op_value |-> e.op_value, rt_id |-> e.rt_id, err |-> e.err]
+       = OpCtxSeen(s.opHasCtx, [id |-> s.rtCtxs[e.n].id, cancelled |-> s.rtCtxs[e.n].cancelled])
+
+\* several Runtimes: each hands its readers what its own registry says, whatever was done to the others
+MultiOK(s, e) ==
+  /\ e.ev = "mop"
+  /\ CASE e.op = "new" -> e.r = Len(s.m.at) + 1
+        [] e.op \in {"set", "del"} -> e.r \in DOMAIN s.m.at
+        [] e.op = "submit" -> /\ e.r \in DOMAIN s.m.at
+                              /\ LET w == OwnLookup(s.m, e.r, e.t) IN e.outcome = w.kind /\ e.consumer_id = w.id
+        [] OTHER -> FALSE
+
 MAllowed(s, e) ==
   CASE s.kind = "pick" -> e.ev = "submit" /\ PickOK(s, e)
     [] s.kind = "conc" -> ConcOK(s, e)
     [] s.kind = "retain" -> RetainOK(s, e)
     [] s.kind = "clientlat" -> WireOK(s, e)
+    [] s.kind = "opreuse" -> ReuseOK(s, e)
+    [] s.kind = "multi" -> MultiOK(s, e)
     [] OTHER -> e.ev = "race" /\ e.reports = 0                  \* no data race reported on any of the runs
 
-MStep(s, e) == IF (s.kind = "conc" /\ e.ev = "caller") \/ (s.kind = "retain" /\ e.ev = "retained")
+MStep(s, e) == IF s.kind = "opreuse" THEN [s EXCEPT !.n = @ + 1]
+               ELSE IF s.kind = "multi" THEN [s EXCEPT !.m = MApply(@, [op |-> e.op, r |-> e.r, mt |-> e.mt, id |-> e.id])]
+               ELSE IF (s.kind = "conc" /\ e.ev = "caller") \/ (s.kind = "retain" /\ e.ev = "retained")
                THEN [s EXCEPT !.seen = @ \cup {e.i}] ELSE s
 
 MWhy(s, e) ==
   CASE s.kind = "pick" -> IF e.ev = "submit" THEN PickWhy(s, e) ELSE "unknown-event"
     [] s.kind = "conc" -> ConcWhy(s, e)
     [] s.kind = "retain" -> IF e.ev = "retained" THEN "retained-response-shows-another-call" ELSE "retained-responses-missing"
+    [] s.kind = "opreuse" ->
+         IF e.ev # "reuse_call" THEN "unknown-event"
+         ELSE IF ~e.op_unchanged THEN "submit-modified-the-callers-operation"
+         ELSE IF ~e.result_ok \/ e.requests # 1 THEN "resubmitted-operation-failed"
+         ELSE "resubmitted-operation-carries-the-context-of-an-earlier-call"
+    [] s.kind = "multi" -> IF e.ev = "mop" /\ e.op = "submit" THEN "runtime-hands-out-another-runtimes-registry" ELSE "bad-multi-event"
     [] s.kind = "clientlat" ->
          IF e.ev # "wire" THEN "unknown-event"
          ELSE IF ~e.result_ok \/ e.requests # 1 THEN "exchange-failed"
